@@ -127,8 +127,15 @@ func (c *Ctx) storeTarget(addr ssa.Value, m *ModSet) {
 	case *ssa.Global:
 		m.add("G$" + smtIdent(a.Pkg.Pkg.Path()+"."+a.Name()))
 	case *ssa.Alloc:
+		// a fresh cell: only its own heaps, never the interior of other objects
 		elem := deref(a.Type())
-		c.derefMods(elem, m)
+		if s, ok := elem.Underlying().(*types.Struct); ok {
+			for i := 0; i < s.NumFields(); i++ {
+				m.add(c.fieldHeapName(elem, s.Field(i).Name()))
+			}
+		} else {
+			m.add("P$" + typeName(elem))
+		}
 	default:
 		c.derefMods(deref(addr.Type()), m)
 	}
